@@ -25,7 +25,10 @@ struct Sol : public squids::SQuIDS {
   Sol(Sol&& o) : squids::SQuIDS(std::move(o)), d(o.d) {}
   Sol& operator=(Sol&& o) { squids::SQuIDS::operator=(std::move(o)); d = o.d; return *this; }
   SU_vector H0(double x, unsigned ir) const override { SU_vector h(d); for (int k = 1; k < d; k++) h[d * k + k] = 0.1 * k + 0.01 * x + ir; return h; }
-  SU_vector HI(unsigned ix, unsigned, double t) const override { SU_vector h(d); for (int k = 1; k < d * d; k++) h[k] = 0.01 * k + 0.001 * ix + 0.002 * t; return h; }
+  bool bad_term = false;  // HI of a wrong dimension: the library's own 'non-matching dimensions' exception is raised in the middle of an integration
+  SU_vector HI(unsigned ix, unsigned, double t) const override { int dd = bad_term ? (d == 2 ? 3 : 2) : d; SU_vector h(dd); for (int k = 1; k < dd * dd; k++) h[k] = 0.01 * k + 0.001 * ix + 0.002 * t; return h; }
+  // the in-step view of the state is public to derived classes: read it whenever the library says it is current
+  void PreDerive(double) override { volatile double x = 0; for (unsigned ix = 0; ix < nx; ix++) { for (unsigned ir = 0; ir < nrhos; ir++) x = x + estate[ix].rho[ir][0]; if (nscalars) x = x + estate[ix].scalar[0]; } (void)x; }
   SU_vector GammaRho(unsigned, unsigned, double) const override { SU_vector g(d); g[0] = 0.05; return g; }
   SU_vector InteractionsRho(unsigned, unsigned, double) const override { SU_vector g(d); g[1] = 0.01; return g; }
   double GammaScalar(unsigned, unsigned, double) const override { return 0.1; }
@@ -244,12 +247,16 @@ void run_case(ByteSource& s, CaseInfo& ci) {
           // library's exception without leaking the GSL driver
           bool force_fail = adaptive && m != 0 && s.choose(6) == 0;
           forced_now = force_fail;
+          // (tail byte) or a user term makes the library throw from inside the right-hand side
+          bool term_throws = !force_fail && (m & 1) && s.tail_choose(8) == 1;
+          struct TermRestore { Sol* p; ~TermRestore() { p->bad_term = false; } } trestore{sol[k].get()};
+          sol[k]->bad_term = term_throws;
           if (force_fail) { sol[k]->Set_rel_error(1e-13); sol[k]->Set_abs_error(1e-13); sol[k]->Set_h_min(0.5); sol[k]->Set_h(0.5); }
           struct Restore { Sol* p; bool on; ~Restore() { if (on) { p->Set_h_min(1e-300); p->Set_h(1e-3); } } } restore{sol[k].get(), force_fail};
-          sol[k]->Evolve(s.flag() && !force_fail ? 0.0 : 0.05); break;
+          sol[k]->Evolve(s.flag() && !force_fail && !term_throws ? 0.0 : 0.05); break;
         }
         case 42: {  // expectation values, inside and outside the grid
-          int k = (int)s.choose(2); if (!sol[k] || sol[k]->NX() < 2) break;
+          int k = (int)s.choose(2); if (!sol[k]) break;  // (a solver with a single node is a solver too: x=1 is its node)
           SU_vector o(sol[k]->d); o[1] = 1; o[0] = 0.5; unsigned ir = s.choose(sol[k]->NR());
           std::vector<bool> avr(sol[k]->d * (sol[k]->d - 1) / 2);
           double x = (double[]){1.0, 5.5, 10.0, 0.5, 11.0, -INFINITY}[s.choose(6)];
@@ -259,7 +266,7 @@ void run_case(ByteSource& s, CaseInfo& ci) {
             default: { SU_vector is = sol[k]->GetIntermediateState(ir, x); (void)is; break; } }
           break;
         }
-        case 43: { int k = (int)s.choose(2); if (!sol[k] || sol[k]->NX() < 2) break; double x = (double[]){1.0, 3.3, 10.0, 0.0, 12.0}[s.choose(5)]; volatile unsigned r = sol[k]->Get_i(x); (void)r; break; }
+        case 43: { int k = (int)s.choose(2); if (!sol[k]) break; double x = (double[]){1.0, 3.3, 10.0, 0.0, 12.0}[s.choose(5)]; volatile unsigned r = sol[k]->Get_i(x); (void)r; break; }
         case 44: { if (!sol[0]) break; std::unique_ptr<Sol> n(new Sol(std::move(*sol[0]))); sol[0].reset(); sol[1] = std::move(n); break; }  // move construct, old destroyed
         case 45: { if (!sol[0] || !sol[1]) break; *sol[1] = std::move(*sol[0]); sol[0].reset(); break; }                                                                   // move assign
         case 46: { int k = (int)s.choose(2); sol[k].reset(); break; }
@@ -300,4 +307,29 @@ void regressions() {
   { SU_vector e, v(3); v = e; }
   SU_vector::clear_mem_cache();
   CHECK(ledger::live_blocks() == live0, "C15|blocks-not-released-at-quiescence", "regression: the block of a vector assigned from an empty one was never released");
+  // 715c5d6: interpolating queries on a one-node solver read x[1] / state[1] (ASan: heap-buffer-overflow)
+  {
+    Sol s1(1, 3, 1, 0, 0.0); s1.Set_xrange(1.0, 1.0, "linear"); s1.fill();
+    SU_vector o(3); o[1] = 1; std::vector<bool> avr(3); squids::SQuIDS::expectationValueDBuffer ub(3);
+    volatile double r = s1.GetExpectationValueD(o, 0, 1.0); r = s1.GetExpectationValueD(o, 0, 1.0, ub); r = s1.GetExpectationValueD(o, 0, 1.0, 0.5, avr); r = s1.GetExpectationValueD(o, 0, 1.0, ub, 0.5, avr); (void)r;
+    SU_vector is = s1.GetIntermediateState(0, 1.0); (void)is;
+  }
+  // 9855a0d: after a failed integration the in-step view must alias the stored state again (ASan: use after free in PreDerive), and an
+  // exception from a term function must not leak the GSL driver (LeakSanitizer at exit)
+  for (const gsl_odeiv2_step_type* st : {gsl_odeiv2_step_msadams, gsl_odeiv2_step_rkf45}) {
+    Sol s2(2, 2, 1, 1, 0.0); s2.Set_xrange(1.0, 2.0, "linear"); s2.fill();
+    s2.Set_CoherentRhoTerms(true); s2.Set_GammaScalarTerms(true); s2.Set_GSL_step(st); s2.Set_AdaptiveStep(true);
+    s2.Set_rel_error(1e-13); s2.Set_abs_error(1e-13); s2.Set_h_min(0.5); s2.Set_h(0.5);
+    try { s2.Evolve(0.05); } catch (const std::exception&) {}  // (fails with msadams; whether it does is GSL's business)
+    s2.Set_CoherentRhoTerms(false); s2.Set_GammaScalarTerms(false);
+    s2.Evolve(0.1);  // numerics off: PreDerive reads the in-step view
+  }
+  {
+    Sol s3(2, 3, 1, 0, 0.0); s3.Set_xrange(1.0, 2.0, "linear"); s3.fill();
+    s3.Set_CoherentRhoTerms(true); s3.Set_rel_error(1e-6); s3.Set_abs_error(1e-6); s3.Set_h(1e-3);
+    s3.bad_term = true;
+    bool threw = false; try { s3.Evolve(0.05); } catch (const std::exception&) { threw = true; }
+    CHECK(threw, "C15|throwing-term|no-exception", "regression");
+    s3.bad_term = false; s3.Evolve(0.05);
+  }
 }
